@@ -220,6 +220,27 @@ def cmp_cases(rng, n):
             m = ln if rng.random() < 0.85 else rng.randint(0, 6)
             other = [form, [rng.choice(pool) for _ in range(m)]]
         cs.append({"op": "cmp", "fn": rng.choice(CMP_FNS), "xs": xs, "other": other, "name": rng.choice([None, "x"])})
+    # dates with dates, datetimes with datetimes (the same day at different times of day), as built and - "born":
+    # "promoted" - as vectors that were BORN one step down the ladder and promoted by in-place writes (a date vector that
+    # received datetimes, an int vector that received floats ...): comparisons follow the current elements
+    tpools = [[["d", 737425], ["d", 737426], ["d", 730120], ["N"]],
+              [["dt", 737425, 0], ["dt", 737425, 3600], ["dt", 737425, 86399], ["dt", 737426, 0], ["N"]],
+              [["f", (1.5).hex()], ["f", (2.0).hex()], ["f", (2.5).hex()], ["N"]],
+              [["i", 1], ["i", 0], ["i", 2], ["N"]]]
+    for fn in ("eq", "ne", "lt", "le", "gt", "ge"):
+        for pool in tpools:
+            for born in (None, "promoted"):
+                for _ in range(2):
+                    ln = rng.randint(2, 5)
+                    xs = [rng.choice(pool) for _ in range(ln)]
+                    if all(t[0] == "N" for t in xs):
+                        xs[0] = pool[0]
+                    other = rng.choice([["scalar", rng.choice(pool[:-1])], ["vec", [rng.choice(pool) for _ in range(ln)]],
+                                        ["list", [rng.choice(pool) for _ in range(ln)]]])
+                    c = {"op": "cmp", "fn": fn, "xs": xs, "other": other, "name": rng.choice([None, "x"])}
+                    if born:
+                        c["born"] = born
+                    cs.append(c)
     # operands that are equal for hash() (and so for fingerprint()) but not for ==: -1 / -2, x / x + (2**61-1),
     # nan / nan (nan != nan) -- compared AFTER both fingerprints were computed and cached ("fp": true), and
     # without; a comparison shortcut through any cached summary of the operands must not change the answer
@@ -401,7 +422,15 @@ def observe(case):
                 except Exception:
                     b = None
                 tbl.append([V.enc(x), V.enc(y), b])
-            if case.get("lived") is not None:
+            v = None
+            if case.get("born"):
+                from harness.props import c05
+                v = c05._via_writes(list(xs), None, case["born"])
+                if v is not None:
+                    v.name = case.get("name")
+            if v is not None:
+                pass
+            elif case.get("lived") is not None:
                 v = V.lived_in(lambda ys_: Vector(ys_, name=case.get("name")), list(xs), case["lived"])
             else:
                 v = Vector(xs, name=case.get("name"))
